@@ -262,7 +262,7 @@ SOLO_COMPOSITES = [
     L("enum_untyped_obj", {"enum": [{"a": 1}, {"a": 2}]}, enf=False, sup=False),
     L("not_enum_int", {"type": "integer", "not": {"enum": [1, 2]}}, ff=False, enf=True),
     L("not_enum_negint", {"type": "integer", "not": {"enum": [-1, -2, 7]}}, ff=False, enf=True),
-    L("not_typed_negint", {"not": {"type": "integer", "enum": [-1, -2, 7]}}, ff=False, enf=False),   # the type sits inside `not`: an i64 deny list
+    L("not_typed_negint", {"not": {"type": "integer", "enum": [-1, -2, 7]}}, ff=False, enf=True),   # the type sits inside `not`: an i64 deny list
     L("enum_negint", {"type": "integer", "enum": [-1, 0, 1]}, enf=True),
     L("not_enum_untyped_int", {"not": {"enum": [1, 2]}}, ff=False, enf=False, sup=False),
     # validation keywords next to $ref: draft-07 ignores them (so does the oracle), typify applies them: outside the faithful / enforced fragments
